@@ -1989,6 +1989,7 @@ def install_default_intrinsics(ex):
         if not isinstance(args[1], int):
             raise Inconclusive('indexed intrinsic %s needs a concrete index, got %s' % (args[0], str(args[1])[:200]))
         return const_name(args[0]) + str(symgo_signed64(args[1]))
+    I['v:vN'] = lambda ex, st, args, pos: (iname(args), st)
     I['v:vU8i'] = lambda ex, st, args, pos: (ex.fresh(iname(args), 'bv', 8), st)
     I['v:vU16i'] = lambda ex, st, args, pos: (ex.fresh(iname(args), 'bv', 16), st)
     I['v:vBooli'] = lambda ex, st, args, pos: (ex.fresh(iname(args), 'bool'), st)
